@@ -125,6 +125,37 @@ def adv(with_t):
                         ["jinns.loss._operators:_u_dot_nabla_times_u_rev"])
 
 
+def as_field(which, with_t):
+    """the operator's result is the mathematical field, *as a function of the point*: its Jacobian with respect to x is the
+    Jacobian of the definition (operators are composed: div / Laplacian of (u . grad) u, ...).  d = 2."""
+    d = 2
+    m = {"adv": 2, "div": 2, "lap": 1}[which]
+    f = {"adv": ops._u_dot_nabla_times_u_rev, "div": ops._div_rev, "lap": ops._laplacian_rev}[which]
+    def build():
+        net = _net("fld" + which, d, with_t, m)
+        base = _call(f, net, with_t)
+        def fn(*a):
+            xi = 1 if with_t else 0
+            return jax.jacfwd(lambda x: jnp.reshape(base(*(a[:xi] + (x,) + a[xi + 1:])), (-1,)))(a[xi])
+        def value(pt, th, o):
+            n = net.jet(th)
+            if which == "adv":
+                return [n(0, pt) * n(j, pt, (o,)) + n(1, pt) * n(j, pt, (o + 1,)) for j in range(2)]
+            if which == "div":
+                return [sum((n(i, pt, (o + i,)) for i in range(d)), P.ZERO)]
+            return [sum((n(0, pt, (o + i, o + i)) for i in range(d)), P.ZERO)]
+        def spec(*a, wrong=False):
+            pt, th, o = _unpack(a, with_t)
+            vals = value(pt, th, o)
+            if wrong:       # the transporting / differentiated factor frozen: the derivative misses a term
+                n = net.jet(th)
+                return arr(lambda j: P.diff(vals[j[0]], pt[o + j[1]]) + n(0, pt, (o + j[1],)), (len(vals), d))
+            return arr(lambda j: P.diff(vals[j[0]], pt[o + j[1]]), (len(vals), d))
+        return dict(fn=fn, inputs=_inputs(d, with_t), spec=spec, canary=lambda *a: spec(*a, wrong=True))
+    nm = {"adv": "_u_dot_nabla_times_u_rev", "div": "_div_rev", "lap": "_laplacian_rev"}[which]
+    return EqObligation(f"C01/{nm}/ensures.jacobian_of_the_returned_field[d=2,t={int(with_t)}]", build, ["jinns.loss._operators:" + nm])
+
+
 def adv_raises(d, with_t):
     def build():
         net = _net("advr", d, with_t, d)
@@ -146,6 +177,9 @@ def reexports(seed):
 
 def obligations(tier):
     obs = []
+    for with_t in (False, True):
+        for which in ("adv", "div", "lap"):
+            obs.append(as_field(which, with_t))
     dims = (1, 2, 3, 4)
     for with_t in (False, True):
         for d in dims:
